@@ -274,13 +274,15 @@ pub fn gen(prop: &str, r: &mut Rng) -> Vec<String> {
             let ws = |r: &mut Rng| -> String { (0..1 + r.below(3)).map(|_| if r.chance(1, 3) { '\t' } else { ' ' }).collect() };
             let hn = |r: &mut Rng| -> String { gen_host(r) };
             let kw = |r: &mut Rng, s: &str| -> String { s.chars().map(|c| if r.chance(1, 2) { c.to_ascii_lowercase() } else { c }).collect() };
+            // numbers: half of the time a value at or next to the limit of the field (max = largest value the field holds)
+            let num = |r: &mut Rng, max: u64| -> u64 { if r.chance(1, 2) { *r.pick(&[0, 1, max / 2, max - 1, max, max + 1, max * 2 + 1]) } else { r.below(max + max / 16 + 2) } };
             let body = match r.below(9) {
-                0 => format!("{}{}{}", kw(r, "A"), ws(r), (0..4).map(|_| r.below(300).to_string()).collect::<Vec<_>>().join(".")),
+                0 => format!("{}{}{}", kw(r, "A"), ws(r), (0..4).map(|_| num(r, 255).to_string()).collect::<Vec<_>>().join(".")),
                 1 => format!("{}{}{:x}:{:x}::{:x}", kw(r, "AAAA"), ws(r), r.next() as u16, r.next() as u16, r.next() as u16),
                 2 => { let k = *r.pick(&["NS", "CNAME", "PTR"]); format!("{}{}{}", kw(r, k), ws(r), hn(r)) }
-                3 => format!("{}{}{}{}{}", kw(r, "MX"), ws(r), r.below(70000), ws(r), hn(r)),
-                4 => format!("{}{}{}{}{}{}({} {} {} {} {}){}", kw(r, "SOA"), ws(r), hn(r), ws(r), hn(r), ws(r), r.next() as u32, r.next() as u32, r.below(5000000000), r.next() as u32, r.next() as u32, if r.chance(1, 3) { " " } else { "" }),
-                5 => { let n = r.below(9) as usize; format!("{}{}{} {} {} {}", kw(r, "DS"), ws(r), r.below(70000), r.below(300), r.below(300), hex(&r.bytes(n)).replace("-", "") + if r.chance(1, 3) { "a" } else { "" }) }
+                3 => format!("{}{}{}{}{}", kw(r, "MX"), ws(r), num(r, 65535), ws(r), hn(r)),
+                4 => format!("{}{}{}{}{}{}({} {} {} {} {}){}", kw(r, "SOA"), ws(r), hn(r), ws(r), hn(r), ws(r), num(r, 4294967295), r.next() as u32, r.below(5000000000), num(r, 4294967295), r.next() as u32, if r.chance(1, 3) { " " } else { "" }),
+                5 => { let n = r.below(9) as usize; format!("{}{}{} {} {} {}", kw(r, "DS"), ws(r), num(r, 65535), num(r, 255), num(r, 255), hex(&r.bytes(n)).replace("-", "") + if r.chance(1, 3) { "a" } else { "" }) }
                 6 => { let n = *r.pick(&[0usize, 3, 255, 256, 300]); format!("{}{}\"{}\"", kw(r, "TXT"), ws(r), (0..n).map(|_| *r.pick(&['a', 'b', ' ', '\\', '0', '4', '6', '"'])).collect::<String>()) }
                 7 => format!("{}{}{}", kw(r, "TXT"), ws(r), (0..r.below(6)).map(|_| *r.pick(&['a', '\\', '1', '9', '"'])).collect::<String>()),
                 _ => { let k = *r.pick(&["MX", "SOA", "DS", "A", "NS"]); format!("{} {}", kw(r, k), hn(r)) }
